@@ -68,10 +68,10 @@ func run[E any, P fields.Ptr[E]](c *mon.Ctx, f *fields.Field[E, P]) {
 	e := &env[E, P]{c, f, q, rng}
 	N := f.Name
 	bigL := c.Thorough()
-	L := fields.Lattice(f, rng, c.Pick(12, 60), bigL)
+	L := fields.Lattice(f, rng, c.Pick(30, 80), bigL)
 	// keep the pairwise part bounded in quick: cap lattice for pairs
 	pairL := L
-	if capN := c.Pick(90, 400); len(pairL.V) > capN {
+	if capN := c.Pick(150, 400); len(pairL.V) > capN {
 		// keep all non-mixed classes, subsample mixed
 		var p fields.Vals
 		for i := range L.V {
@@ -267,7 +267,7 @@ func run[E any, P fields.Ptr[E]](c *mon.Ctx, f *fields.Field[E, P]) {
 	c.SampleOnce(N, map[string]any{"field": N, "op": "Mul", "x": hx(pairL.V[len(pairL.V)/2]), "y": hx(pairL.V[len(pairL.V)-1]), "operand_classes": pairL.Cls[len(pairL.V)/2] + "," + pairL.Cls[len(pairL.V)-1]})
 
 	// ---------- random tuples (bulk) ----------
-	nr := c.Pick(3000, 150000)
+	nr := c.Pick(20000, 200000)
 	for k := 0; k < nr; k++ {
 		a, b := rng.BigBelow(q), rng.BigBelow(q)
 		if k%5 == 0 { // small / sparse values
